@@ -131,6 +131,34 @@ ATTR_CLASSES = [
      'RESERVED_ATTRIBUTES', ['camelCaseToDashName']),
 ]
 
+# parser classes: methods of which `self` is a record of plain fields, one of them the list of open elements (`_inTag`) used
+# through a second name; the items of that list are elements of which only the attributes listed are read (`l[i].tagName`:
+# `Expr.elemAttr`, a parameter of the interpreter): (file, lean name of the list, class, methods to dump, attributes of items,
+# library exception classes the methods raise with the base class they must have, functions of other dumped modules they call:
+# name -> (module file, lean list it is dumped in), the base class whose methods may be called as `return Base.m(self, …)`
+# (`Stmt.retBase`, a parameter of the interpreter) with the sibling module it must be imported from, or None)
+PARSER_CLASSES = [
+    ('Parser.py', 'parser', 'AdvancedHTMLParser', ['handle_endtag'], ('tagName',), {}, {}, None),
+    ('Validator.py', 'validator', 'ValidatingAdvancedHTMLParser', ['handle_endtag', 'handle_starttag'], ('tagName',),
+     {('exceptions', 'InvalidCloseException'): 'HTMLValidationException',
+      ('exceptions', 'MissedCloseException'): 'HTMLValidationException',
+      ('exceptions', 'InvalidAttributeNameException'): 'HTMLValidationException'},
+     {'isValidAttributeName': ('Tags.py', 'tags')}, ('AdvancedHTMLParser', 'Parser.py')),
+    ('Tags.py', 'advanced_tag', 'AdvancedTag', ['getStartTag', 'getEndTag'], (), {}, {'escapeQuotes': ('utils.py', 'utils')},
+     None),
+]
+# PARSER_CLASSES classes that override dot access: class -> (the exact first statement `__getattribute__` must have — then
+# `self.f` is the plain attribute whenever the object has one —, module constants (sets of texts) the methods may name, with
+# the sibling module they are imported from: `Expr.global`, supplied by the theorems from the regenerated tables).  The dumped
+# methods of such a class must not assign to `self.<name>` (`__setattr__` is not modelled).
+PARSER_CLASS_DOT_ACCESS = {
+    'AdvancedTag': ('try:\n    return object.__getattribute__(self, name)\nexcept:\n    pass',
+                    {'TAG_ITEM_BINARY_ATTRIBUTES': 'constants.py', 'PREFORMATTED_TAGS': 'constants.py',
+                     'PRESERVE_CONTENTS_TAGS': 'constants.py'}),
+}
+# special methods a PARSER_CLASSES class must not define (`self.f` is then the plain attribute)
+PARSER_CLASS_FORBIDDEN = ('__getattr__', '__getattribute__', '__setattr__')
+
 BUILTIN_FUNCS = ('int', 'bool', 'str', 'hasattr', 'issubclass', 'len', 'list')
 # methods that change their receiver: `x.m(args)` as an expression statement on a local variable is `Stmt.varCall`
 MUTATORS = ('append', 'remove', 'acquire', 'release')
@@ -319,7 +347,7 @@ def _check_tostr(repo):
 
 
 class _FunTranslator(object):
-    def __init__(self, mod, fn, earlier, prims=None, lean_name=None, static=False, cls=None, acls=None):
+    def __init__(self, mod, fn, earlier, prims=None, lean_name=None, static=False, cls=None, acls=None, pcls=None):
         self.mod = mod
         self.fn = fn
         self.earlier = earlier          # names of the module functions defined before this one
@@ -330,6 +358,9 @@ class _FunTranslator(object):
         # a class of ATTR_CLASSES: {'name', 'reserved' (names with plain dot access), 'consts' (class-level constant tuples:
         # name -> Tuple node), 'statics' (dumped static methods callable as Class.m)}
         self.acls = acls
+        # a class of PARSER_CLASSES: {'name', 'elem_attrs' (attributes read from items of a list of elements), 'exc' (library
+        # exception classes that may be named)}
+        self.pcls = pcls
         self.aliases = {}               # local variable -> field of self it is a second name of
         self.comp_vars = set()          # variables of comprehensions
         self.lean_name = lean_name or (fn.name + '_ast')
@@ -374,6 +405,8 @@ class _FunTranslator(object):
                     # object.__getattribute__(self, n) / object.__setattr__(self, n, v)
                     if isinstance(n, ast.Call) and self.object_call(n) is not None:
                         ok_uses.add(id(n.args[0]))
+                if pcls is not None and isinstance(n, ast.Return) and self.base_meth_call(n.value, pcls) is not None:
+                    ok_uses.add(id(n.value.args[0]))
                 if cls is not None:
                     # the list the object IS: `list.m(self, …)` as a statement, `self[:]`, `list(self)`; and `return self`
                     if isinstance(n, ast.Expr) and self.base_call(n.value) is not None:
@@ -401,6 +434,8 @@ class _FunTranslator(object):
                 self.locals.add(n.name)
         if 'tostr' in self.imported.values():
             _check_tostr(mod.repo)
+        if pcls is not None:
+            self.find_aliases()
         if acls is not None:
             self.find_aliases()
             for n in ast.walk(fn):
@@ -441,7 +476,14 @@ class _FunTranslator(object):
         """`x = self.f` at the top level of the body, x bound nowhere else, self.f never assigned: x is a second name of
         the object in self.f"""
         fn = self.fn
-        for st in fn.body:
+        places = list(fn.body)
+        if self.pcls is not None:
+            # also directly inside a `try:` at the top level (the body of `handle_endtag`): run at most once, and a read of
+            # the name before it is bound is an UnboundLocalError in the interpreter as in Python
+            for st in fn.body:
+                if isinstance(st, ast.Try):
+                    places += list(st.body)
+        for st in places:
             if isinstance(st, ast.Assign) and len(st.targets) == 1 and isinstance(st.targets[0], ast.Name) \
                     and self.self_field(st.value) is not None:
                 x = st.targets[0].id
@@ -474,6 +516,19 @@ class _FunTranslator(object):
         if isinstance(f, ast.Attribute) and isinstance(f.value, ast.Name) and f.value.id == 'list' \
                 and 'list' not in self.locals and 'list' not in self.mod.rebound and v.args \
                 and isinstance(v.args[0], ast.Name) and v.args[0].id == self.self_name and not v.keywords \
+                and not any(isinstance(a, ast.Starred) for a in v.args):
+            return f.attr, v.args[1:]
+        return None
+
+    def base_meth_call(self, v, pcls=None):
+        """`Base.m(self, args…)` for the base class of a PARSER_CLASSES class -> (m, args); anything else -> None"""
+        pcls = pcls or self.pcls
+        if pcls is None or pcls.get('base') is None or not isinstance(v, ast.Call):
+            return None
+        f = v.func
+        if isinstance(f, ast.Attribute) and isinstance(f.value, ast.Name) and f.value.id == pcls['base'] \
+                and f.value.id not in self.locals and v.args and isinstance(v.args[0], ast.Name) \
+                and v.args[0].id == self.params[0] and not v.keywords \
                 and not any(isinstance(a, ast.Starred) for a in v.args):
             return f.attr, v.args[1:]
         return None
@@ -523,6 +578,8 @@ class _FunTranslator(object):
                 return '(.avar %s)' % lean_str(n.id)
             if not module_scope and n.id in self.locals:
                 return '(.var %s)' % lean_str(n.id)
+            if not module_scope and n.id in self.comp_vars:
+                return '(.var %s)' % lean_str(n.id)
             if n.id in self.imported:
                 self.fail(n, 'imported function %s used as a value' % n.id)
             if n.id in self.mod.singletons:
@@ -534,9 +591,13 @@ class _FunTranslator(object):
                     if c == n.id:
                         _check_library_exc(self.mod.repo, m, c)
                 return '(.excClass %s)' % lean_str(n.id)
+            if self.pcls is not None and n.id in self.pcls['exc']:
+                return '(.excClass %s)' % lean_str(n.id)
             if n.id in self.mod.const_tuples:
                 return self.expr(self.mod.const_tuples[n.id], module_scope=True)
             if n.id in self.mod.int_consts:
+                return '(.global %s)' % lean_str(n.id)
+            if self.pcls is not None and n.id in self.pcls.get('consts', {}) and n.id not in self.locals:
                 return '(.global %s)' % lean_str(n.id)
             self.fail(n, 'name %s is neither local, a module singleton / constant (tuple) nor an exception class' % n.id)
         if isinstance(n, ast.List) and isinstance(n.ctx, ast.Load) and not n.elts:
@@ -551,6 +612,24 @@ class _FunTranslator(object):
                 self.fail(n, 'comprehension other than [e for a, b in d.items()]')
             return '(.compItems %s %s %s %s)' % (lean_str(g.target.elts[0].id), lean_str(g.target.elts[1].id),
                                                  self.expr(n.elt, module_scope), self.expr(g.iter.func.value, module_scope))
+        if self.pcls is not None and isinstance(n, ast.Call) and isinstance(n.func, ast.Name) and n.func.id == 'isinstance' \
+                and 'isinstance' not in self.mod.rebound and 'isinstance' not in self.locals and not n.keywords \
+                and len(n.args) == 2 and isinstance(n.args[1], ast.Name) and n.args[1].id == self.pcls['name'] \
+                and n.args[1].id not in self.locals and not isinstance(n.args[0], ast.Starred):
+            # isinstance(x, C) with C the class being dumped
+            return '(.isInstance %s %s)' % (self.expr(n.args[0], module_scope), lean_str(n.args[1].id))
+        if self.pcls is not None and isinstance(n, ast.ListComp):
+            g = n.generators[0] if len(n.generators) == 1 else None
+            if g is None or g.ifs or g.is_async or not isinstance(g.target, ast.Name):
+                self.fail(n, 'comprehension other than [e for x in l]')
+            return '(.compFor %s %s %s)' % (lean_str(g.target.id), self.expr(n.elt, module_scope), self.expr(g.iter, module_scope))
+        if self.pcls is not None and isinstance(n, ast.Attribute) and isinstance(n.ctx, ast.Load) \
+                and isinstance(n.value, ast.Subscript) and not isinstance(n.value.slice, (ast.Slice, ast.Tuple)) \
+                and isinstance(n.value.value, ast.Name) and n.value.value.id in self.aliases and id(n) not in self.callees:
+            # an attribute of an item of the list of elements
+            if n.attr not in self.pcls['elem_attrs']:
+                self.fail(n, 'attribute %s of an element' % n.attr)
+            return '(.elemAttr %s %s)' % (self.expr(n.value, module_scope), lean_str(n.attr))
         if self.acls is not None and isinstance(n, ast.Call) and self.object_call(n) == '__getattribute__':
             return '(.objAttr %s %s)' % (lean_str(self.self_name), self.expr(n.args[1], module_scope))
         if self.acls is not None and isinstance(n, ast.Call) and self.object_call(n) == '__setattr__':
@@ -581,6 +660,19 @@ class _FunTranslator(object):
             return '(.boundMeth %s %s)' % (lean_str(n.value.id), lean_str(n.attr))
         if isinstance(n, ast.Dict) and not n.keys:
             return '.newDict'
+        if self.pcls is not None and isinstance(n, ast.BinOp) and isinstance(n.op, ast.Mod) \
+                and isinstance(n.left, ast.Constant) and isinstance(n.left.value, str):
+            # 'literal' % (a, b)  /  'literal' % a   (a parenthesised single value is that value; a tuple VALUE as the single
+            # argument would be spread by Python: only syntactic tuples and non-tuple expressions are accepted)
+            if isinstance(n.right, ast.Tuple):
+                args = n.right.elts
+            elif isinstance(n.right, (ast.Name, ast.Attribute, ast.Constant)):
+                self.fail(n, 'format with a single argument that could be a tuple')
+            else:
+                self.fail(n, 'format argument')
+            if any(isinstance(a, ast.Starred) for a in args):
+                self.fail(n, 'starred format argument')
+            return '(.format %s [%s])' % (lean_str(n.left.value) + '.toList', ', '.join(self.expr(a, module_scope) for a in args))
         if isinstance(n, ast.BinOp):
             op = BINOPS.get(type(n.op))
             if op is None:
@@ -648,6 +740,12 @@ class _FunTranslator(object):
             if isinstance(f, ast.Name):
                 if not module_scope and f.id in self.locals:
                     return '(.callv (.var %s) %s)' % (lean_str(f.id), args)
+                if self.pcls is not None and f.id == 'tostr' and self.mod.imported_funcs.get('tostr') == 'utils.py':
+                    _check_tostr(self.mod.repo)
+                    return '(.call "tostr" %s)' % args
+                if self.pcls is not None and f.id in self.pcls['exc']:
+                    # instantiating a library exception class (its `__init__` is taken to return normally: PyAst.callValue)
+                    return '(.callv (.excClass %s) %s)' % (lean_str(f.id), args)
                 if f.id in self.imported:
                     return '(.call %s %s)' % (lean_str(self.imported[f.id]), args)
                 if f.id in self.earlier:
@@ -720,6 +818,10 @@ class _FunTranslator(object):
                     self.fail(st, 'the method %s is not dumped before this one (dependency order)' % v.func.attr)
                 return comment, ['%s.varCall %s %s [%s]' % (pad, lean_str(v.func.value.id), lean_str(v.func.attr),
                                                            ', '.join(self.expr(a) for a in v.args))]
+            if self.pcls is not None and isinstance(v, ast.Call) and isinstance(v.func, ast.Attribute) \
+                    and isinstance(v.func.value, ast.Name) and v.func.value.id in self.aliases and v.func.attr == 'pop' \
+                    and not v.args and not v.keywords:
+                return comment, ['%s.refCall %s %s []' % (pad, lean_str(v.func.value.id), lean_str(v.func.attr))]
             if isinstance(v, ast.Call) and isinstance(v.func, ast.Attribute) and isinstance(v.func.value, ast.Name) \
                     and v.func.value.id in self.aliases:
                 self.fail(st, 'statement method of an aliased field')
@@ -784,10 +886,35 @@ class _FunTranslator(object):
             lines += self.block(st.body, ind + 2)
             lines.append('%s]' % pad)
             return comment, lines
+        if self.pcls is not None and isinstance(st, ast.For) and isinstance(st.target, ast.Tuple):
+            # `for (a, b) in x:` over a local variable holding a list of 2-tuples
+            t = st.target
+            it = st.iter
+            items_of_field = (isinstance(it, ast.Call) and isinstance(it.func, ast.Attribute) and it.func.attr == 'items'
+                              and not it.args and not it.keywords and self.self_field(it.func.value) is not None)
+            if st.orelse or len(t.elts) != 2 or not all(isinstance(e, ast.Name) for e in t.elts) \
+                    or t.elts[0].id == t.elts[1].id \
+                    or any(e.id in self.aliases or e.id == self.self_name for e in t.elts):
+                self.fail(st, 'for with a tuple target other than two plain names')
+            if not items_of_field and (not isinstance(it, ast.Name) or it.id not in self.locals or it.id in self.aliases
+                                       or it.id == self.self_name or any(e.id == it.id for e in t.elts)):
+                self.fail(st, 'for with a tuple target over something else than a local variable or self.<field>.items()')
+            lines = ['%s.forPair %s %s %s [' % (pad, lean_str(t.elts[0].id), lean_str(t.elts[1].id), self.expr(st.iter))]
+            lines += self.block(st.body, ind + 2)
+            lines.append('%s]' % pad)
+            return comment, lines
         if isinstance(st, ast.For):
             if st.orelse or not isinstance(st.target, ast.Name):
                 self.fail(st, 'for/else, loop target')
-            lines = ['%s.forS %s %s [' % (pad, lean_str(st.target.id), self.expr(st.iter))]
+            it = st.iter
+            if self.pcls is not None and isinstance(it, ast.Call) and isinstance(it.func, ast.Name) and it.func.id == 'range' \
+                    and 'range' not in self.locals and 'range' not in self.mod.rebound and len(it.args) == 1 \
+                    and not it.keywords and not isinstance(it.args[0], ast.Starred):
+                # `range(n)` exists as the iterable of a `for` only (the interpreter makes it the tuple of the numbers)
+                it_text = '(.call "range" [%s])' % self.expr(it.args[0])
+            else:
+                it_text = self.expr(it)
+            lines = ['%s.forS %s %s [' % (pad, lean_str(st.target.id), it_text)]
             lines += self.block(st.body, ind + 2)
             lines.append('%s]' % pad)
             return comment, lines
@@ -795,6 +922,19 @@ class _FunTranslator(object):
             if len(st.targets) != 1 or not isinstance(st.targets[0], ast.Name):
                 self.fail(st, 'assignment target')
             return comment, ['%s.assign %s %s' % (pad, lean_str(st.targets[0].id), self.expr(st.value))]
+        if self.pcls is not None and isinstance(st, ast.AugAssign):
+            # `x op= e` on a local variable is `x = x op e`: the interpreter's `+ - *` give numbers and texts only (immutable;
+            # anything else is an error), so that there is no in-place variant to tell apart
+            op = BINOPS.get(type(st.op))
+            if op is None or not isinstance(st.target, ast.Name) or st.target.id in self.aliases \
+                    or st.target.id == self.self_name:
+                self.fail(st, 'augmented assignment')
+            x = lean_str(st.target.id)
+            return comment, ['%s.assign %s (.binop %s (.var %s) %s)' % (pad, x, op, x, self.expr(st.value))]
+        if isinstance(st, ast.Return) and self.base_meth_call(st.value) is not None:
+            m, rest = self.base_meth_call(st.value)
+            return comment, ['%s.retBase %s %s [%s]' % (pad, lean_str(self.self_name), lean_str(m),
+                                                       ', '.join(self.expr(a) for a in rest))]
         if isinstance(st, ast.Return):
             v = '(.const .none)' if st.value is None else self.expr(st.value)
             return comment, ['%s.ret %s' % (pad, v)]
@@ -1052,8 +1192,91 @@ def generate_code(repo):
         parts.append('/-- %s: the dumped methods of class %s -/' % (rel, cls_name))
         parts.append('def %s : List Fun :=\n  [%s]' % (lean_name, ',\n   '.join(names)))
         parts.append('')
+    for rel, lean_name, cls_name, methods, elem_attrs, excs, imports, base in PARSER_CLASSES:
+        mod = _Module(repo, rel)
+        cls = mod.classes.get(cls_name)
+        if cls is None:
+            raise Untranslatable('%s: no top-level class %s' % (rel, cls_name))
+        if cls.decorator_list or cls.keywords:
+            mod.fail(cls, 'class with decorators / keywords')
+        defs = {}
+        for st in ast.walk(cls):
+            if isinstance(st, ast.FunctionDef):
+                defs.setdefault(st.name, []).append(st)
+        assigned = set()
+        for st in cls.body:
+            if isinstance(st, ast.Assign):
+                for t in st.targets:
+                    for nm in ast.walk(t):
+                        if isinstance(nm, ast.Name):
+                            assigned.add(nm.id)
+        dot = PARSER_CLASS_DOT_ACCESS.get(cls_name)
+        if dot is None:
+            for bad in PARSER_CLASS_FORBIDDEN:
+                if bad in defs or bad in assigned:
+                    mod.fail(cls, 'class %s defines %s' % (cls_name, bad))
+        else:
+            ga = defs.get('__getattribute__', [])
+            if len(ga) != 1 or ga[0] not in cls.body or '__getattr__' in defs or '__getattribute__' in assigned \
+                    or [p.arg for p in ga[0].args.args] != ['self', 'name'] or ga[0].decorator_list:
+                mod.fail(cls, 'class %s: __getattribute__(self, name) is not defined exactly once' % cls_name)
+            stmts = [x for x in ga[0].body if not (isinstance(x, ast.Expr) and isinstance(x.value, ast.Constant))]
+            if not stmts or ast.unparse(stmts[0]) != dot[0]:
+                mod.fail(ga[0], '__getattribute__ does not start with the plain lookup')
+            for cname, crel in sorted(dot[1].items()):
+                if mod.imported_funcs.get(cname) != crel:
+                    mod.fail(cls, '%s is not imported once from %s' % (cname, crel))
+        for (emod, ename), ebase in sorted(excs.items()):
+            if ('%s' % emod, 1, ename) not in mod.from_imports:
+                mod.fail(cls, '%s is not imported once from .%s' % (ename, emod))
+            _check_exc_base(repo, emod, ename, ebase)
+        earlier = []
+        for fname, (frel, _flean) in sorted(imports.items()):
+            if mod.imported_funcs.get(fname) != frel or not any(
+                    r == frel and w is not None and fname in w for (r, _l, w) in MODULES):
+                mod.fail(cls, '%s is not imported once from %s (a dumped function)' % (fname, frel))
+            earlier.append(fname)
+        if base is not None:
+            if [ast.unparse(b) for b in cls.bases] != [base[0]] or mod.imported_funcs.get(base[0]) != base[1]:
+                mod.fail(cls, 'class %s is not derived from %s alone, imported once from %s' % (cls_name, base[0], base[1]))
+        info = {'name': cls_name, 'elem_attrs': tuple(elem_attrs), 'exc': set(n for (_m, n) in excs),
+                'base': base[0] if base is not None else None, 'consts': dict(dot[1]) if dot is not None else {}}
+        names = []
+        for m in methods:
+            if len(defs.get(m, [])) != 1 or defs[m][0] not in cls.body or m in assigned:
+                raise Untranslatable('%s: class %s does not define %s exactly once' % (rel, cls_name, m))
+            fn = defs[m][0]
+            # the fields used must be plain instance attributes: no class-level name (property, method) hides them
+            for n in ast.walk(fn):
+                if isinstance(n, ast.Attribute) and isinstance(n.value, ast.Name) and fn.args.args \
+                        and n.value.id == fn.args.args[0].arg and (n.attr in defs or n.attr in assigned):
+                    mod.fail(n, '%s.%s is a class-level name, not a plain field' % (n.value.id, n.attr))
+            if dot is not None:
+                for n in ast.walk(fn):
+                    if isinstance(n, ast.Attribute) and not isinstance(n.ctx, ast.Load) and isinstance(n.value, ast.Name) \
+                            and fn.args.args and n.value.id == fn.args.args[0].arg:
+                        mod.fail(n, 'assignment to %s.%s in a class that overrides __setattr__' % (n.value.id, n.attr))
+            ln = '%s_%s_ast' % (cls_name, m.strip('_'))
+            parts.append(_FunTranslator(mod, fn, list(earlier), prims=set(), lean_name=ln, pcls=info).translate())
+            parts.append('')
+            names.append(ln)
+        parts.append('/-- %s: the dumped methods of class %s -/' % (rel, cls_name))
+        parts.append('def %s : List Fun :=\n  [%s]' % (lean_name, ',\n   '.join(names)))
+        parts.append('')
     parts.append('end AHP.Gen.Code')
     return '\n'.join(parts) + '\n'
+
+
+def _check_exc_base(repo, module, name, want):
+    """The exception class must exist in the sibling module, once, with exactly the base class given."""
+    p = os.path.join(repo, 'AdvancedHTMLParser', module + '.py')
+    tree = _parse(open(p, encoding='utf-8').read(), p)
+    found = [st for st in ast.walk(tree) if isinstance(st, ast.ClassDef) and st.name == name]
+    if len(found) != 1 or found[0] not in tree.body:
+        raise Untranslatable('%s.py: class %s is not defined exactly once at the top level' % (module, name))
+    st = found[0]
+    if not (len(st.bases) == 1 and isinstance(st.bases[0], ast.Name) and st.bases[0].id == want and not st.keywords):
+        raise Untranslatable('%s.py:%d: %s is not a direct subclass of %s' % (module, st.lineno, name, want))
 
 
 def _check_method_body(mod, cls_name, name, args, body):
